@@ -7,6 +7,7 @@ The index market lives at address 9, its components at 5, 6, 7 (objects of a cla
 extern): outstanding shares are int atoms 50, 60, 70; the oracle answers `get_market_price(time=t)` with
 num atoms 5, 6, 7 and `get_fundamental_price(time=t)` with 15, 16, 17.
 -/
+import PamsLemmas.EvalNf
 import PamsGen.Code
 import PamsModel.Index
 import PamsLemmas.SrcOrder
@@ -50,10 +51,10 @@ def rhoIndex (p q : Nat → K) (s : Nat → Nat) (t : Int) : Rho K :=
     b := fun _ => false }
 
 set_option maxRecDepth 100000
-theorem indexP_m2 : indexPaths "IndexMarket.compute_market_index" 2 = nf% (indexPaths "IndexMarket.compute_market_index" 2) := by rfl
-theorem indexP_m3 : indexPaths "IndexMarket.compute_market_index" 3 = nf% (indexPaths "IndexMarket.compute_market_index" 3) := by rfl
-theorem indexP_f2 : indexPaths "IndexMarket.compute_fundamental_index" 2 = nf% (indexPaths "IndexMarket.compute_fundamental_index" 2) := by rfl
-theorem indexP_f3 : indexPaths "IndexMarket.compute_fundamental_index" 3 = nf% (indexPaths "IndexMarket.compute_fundamental_index" 3) := by rfl
+theorem indexP_m2 : indexPaths "IndexMarket.compute_market_index" 2 = evalnf% (indexPaths "IndexMarket.compute_market_index" 2) := by kernel_rfl
+theorem indexP_m3 : indexPaths "IndexMarket.compute_market_index" 3 = evalnf% (indexPaths "IndexMarket.compute_market_index" 3) := by kernel_rfl
+theorem indexP_f2 : indexPaths "IndexMarket.compute_fundamental_index" 2 = evalnf% (indexPaths "IndexMarket.compute_fundamental_index" 2) := by kernel_rfl
+theorem indexP_f3 : indexPaths "IndexMarket.compute_fundamental_index" 3 = evalnf% (indexPaths "IndexMarket.compute_fundamental_index" 3) := by kernel_rfl
 
 macro "index_finish" : tactic =>
   `(tactic| (all_goals intro h
